@@ -17,7 +17,7 @@ if os.environ.get("MC_C12_LEG") != "1":
     setorder.install()           # must precede any import of numba_scfg
 
 from ..families import enum_closed, make_scfg, shards, deviation_closure  # noqa: E402
-from ..kernel import Chooser, dfs_answers, shard_map  # noqa: E402
+from ..kernel import Chooser, dfs_answers, guarded, shard_map  # noqa: E402
 from ..progs import skeleton_sources  # noqa: E402
 from ..runner import Acc  # noqa: E402
 from ..sweep import exc_fingerprint, graph_case, rotate, unit_graphs, units_for  # noqa: E402
@@ -29,7 +29,7 @@ def dump_graph(g):
     from ..canon import cdump
     scfg = make_scfg(g)
     try:
-        scfg.restructure()
+        guarded(scfg.restructure)
     except Exception as e:  # noqa: BLE001
         return ("raised", type(e).__name__, exc_fingerprint(e)[1])
     return ("ok", cdump(scfg), tuple(scfg.name_gen.kinds.items()))
@@ -40,10 +40,10 @@ def dump_source(src):
     from numba_scfg.core.datastructures.ast_transforms import AST2SCFG, SCFG2AST
     from ..canon import cdump
     try:
-        scfg = AST2SCFG(src)
+        scfg = guarded(AST2SCFG, src)
         d0 = cdump(scfg)
-        scfg.restructure()
-        text = ast.unparse(SCFG2AST(src, scfg))
+        guarded(scfg.restructure)
+        text = ast.unparse(guarded(SCFG2AST, src, scfg))
     except Exception as e:  # noqa: BLE001
         return ("raised", type(e).__name__, exc_fingerprint(e)[1])
     return ("ok", d0, cdump(scfg), text)
@@ -57,7 +57,7 @@ def dump_bytecode(src):
     try:
         flow = ByteFlow.from_bytecode(ns["f"])
         d0 = cdump(flow.scfg)
-        flow.scfg.restructure()
+        guarded(flow.scfg.restructure)
     except Exception as e:  # noqa: BLE001
         return ("raised", type(e).__name__, exc_fingerprint(e)[1])
     return ("ok", d0, cdump(flow.scfg))
